@@ -140,7 +140,7 @@ Definition keep_v3 (lim : Z) (r : list Z) : bool :=
 
 Definition twin_ok (twin : Z) (o : list (list Z)) : option Z :=
   match after99 o with
-  | None => if (1 <=? twin) && (twin <=? 4) then Some 0 else None   (* a twin scenario without run B *)
+  | None => if (1 <=? twin) && (twin <=? 5) then Some 0 else None   (* a twin scenario without run B *)
   | Some b =>
       if (twin =? 1) || (twin =? 2) then cmp keep_all 0 o b
       else if twin =? 3 then cmp (keep_v3 (v3_lim o)) 0 o b
